@@ -319,10 +319,11 @@ def opt_minlen(ctx):
             rs = _ret_set(ctx, b)
             out.append(ok(key) if rs == {"get_minimum_match_length(a1.child_op)"} else bad(key, "Capture minimum length must be its child's; found %s" % sorted(rs), b.loc()))
         elif key == "Sequence":
-            cl = ctx.body(b.path + "::{closure#0}")
-            rs = _ret_set(ctx, b)
-            good = cl is not None and _ret_set(ctx, cl) == {"add(a2, get_minimum_match_length(a3))"} and any("fold(" in r and "a1.operations" in r and ", 0, " in r for r in rs)
-            out.append(ok(key) if good else bad(key, "Sequence minimum length must be the fold (+) of its operations' minima from 0; found %s / closure %s" % (sorted(rs), sorted(_ret_set(ctx, cl)) if cl else None), b.loc()))
+            from ..lockstep import accumulation
+            A = accumulation(ctx, b)
+            M = "get_minimum_match_length(a1.operations[k])"
+            good = A is not None and A["seq"] == "0..len(a1.operations)" and A["init"] == "0" and len(A["turns"]) == 1 and not A["turns"][0][0] and _sh(A["turns"][0][1] or "") in ("add(%s, ACC)" % M, "add(ACC, %s)" % M)
+            out.append(ok(key) if good else bad(key, "Sequence minimum length must be the sum of its operations' minima from 0; found %s" % (A and {k_: A[k_] for k_ in ("seq", "init", "turns")}), b.loc()))
         elif key == "Choice":
             loops = b.natural_loops()
             good = False
@@ -377,6 +378,36 @@ def opt_minlen(ctx):
                                 good, why = False, "the accumulator becomes %s" % newv[:80]
                 if good and (n_upd == 0 or n_keep == 0 or len(accs) != 1):
                     good, why = False, "no min-accumulation (replace iff m < acc) recognised"
+                if not good:
+                    # `branches.iter().map(min_len).min().unwrap()`, as the loop it abbreviates: the first item seeds the
+                    # accumulator, every later one goes through Ord::min; the result is the accumulator
+                    okf, seen_first, seen_min, seen_ret = True, False, False, False
+                    for p in ctx.walk(b, start_bb=h).paths:
+                        gs, r = summarize(p)
+                        gs = [_sh(strip_ver(g)) for g in gs]
+                        hv = [g for g in gs if re.match(r"^!?uninit\(\d+\)$", g)]
+                        if not hv:
+                            okf = False
+                            break
+                        hk = int(re.search(r"\d+", hv[0]).group(0))
+                        has = not hv[0].startswith("!")
+                        if p.end == "return":
+                            rr = _sh(strip_ver(r))
+                            if has:
+                                m = re.match(r"^Option::unwrap\(Option::Some\{0: uninit\((\d+)\)\}\)$", rr)
+                                okf = okf and m is not None
+                                seen_ret = seen_ret or m is not None
+                            continue
+                        vals = {k: _sh(strip_ver(render(v))) for k, v in p.env.items()}
+                        if not has:
+                            okf = okf and vals.get(hk) == "true" and any(re.match(r"^get_minimum_match_length\(.*next\(.*\) as Some\.0\)$", v) for v in vals.values())
+                            seen_first = True
+                        else:
+                            mins = [v for v in vals.values() if re.match(r"^Ord::min\((uninit\(\d+\), get_minimum_match_length\(.*\)|get_minimum_match_length\(.*\), uninit\(\d+\))\)$", v)]
+                            okf = okf and bool(mins) and not any(v.startswith("Ord::max(") for v in vals.values())
+                            seen_min = True
+                    if okf and seen_first and seen_min and seen_ret:
+                        good, why = True, ""
             out.append(ok(key) if good else bad(key, "Choice minimum length must be the minimum over its branches: %s" % why, b.loc()))
         else:
             out.append(bad("unknown-impl|" + key, "%s overrides get_minimum_match_length; not covered by the spec table" % key, b.loc()))
